@@ -30,6 +30,16 @@ PROJECTION_CALLS = {
     "first", "last", "split_at_mut", "chunks_mut",
 }
 
+# std functions that take `&mut` only to derive a pointer / iterator into their argument and
+# write nothing in the pointee themselves (writes through the result are seen as assignments)
+NONMUTATING = {
+    "deref_mut", "get_mut", "index_mut", "iter_mut", "as_mut", "as_mut_slice", "first_mut", "last_mut",
+    "borrow_mut", "get_unchecked_mut", "into_iter", "iter", "enumerate", "by_ref", "rev", "as_mut_ptr",
+    "unwrap", "expect", "map", "filter", "zip", "take", "skip", "peekable", "into", "from", "collect",
+    "partition", "deref", "is_some", "is_none", "len", "is_empty", "as_ref", "get", "index", "first", "last",
+    "first_key_value", "last_key_value", "contains_key", "eq", "ne", "cmp", "partial_cmp", "fmt",
+}
+
 INTERIOR = ("Cell<", "RefCell<", "Mutex<", "RwLock<", "Atomic", "UnsafeCell<", "OnceCell<", "OnceLock<")
 
 
@@ -227,6 +237,13 @@ class Effects:
                 else:
                     name = t.callee_name or "?"
                     for a, ty in zip(args, argtys):
+                        if name in NONMUTATING and not (t.j.get("callee_crate") or "").startswith("bourse"):
+                            # adapters such as map/filter/partition run closures: those effects were
+                            # applied where the closure was created
+                            if is_mut_ref(ty) and a[0] != "local":
+                                continue
+                            if not is_mut_ref(ty):
+                                continue
                         if is_mut_ref(ty) or contains_mut_ref(ty):
                             if a[0] == "agg" and a[1] == "closure":
                                 continue  # closure effects were applied at creation
